@@ -5,7 +5,7 @@ use bc_envelope::prelude::*;
 
 use super::common::*;
 use crate::ctx::Ctx;
-use crate::gen::{self, build, Gen, GenCfg, Route, API_ROUTES};
+use crate::gen::{self, build, GenCfg, Route, API_ROUTES};
 use crate::json::J;
 use crate::pos::{self, tree_of};
 use crate::spec;
@@ -40,7 +40,8 @@ pub fn run(ctx: &mut Ctx) {
     }
     let total = ctx.n(60_000, 250_000);
     let key = SymmetricKey::new();
-    for case in ctx.cases(total) {
+    let sweep = special_numbers_len();
+    for case in ctx.cases(total + sweep) {
         ctx.begin_case(case);
         let mut rng = ctx.rng(case);
         let mut cfg = if ctx.tier == crate::ctx::Tier::Quick { GenCfg::medium() } else { GenCfg::large() };
@@ -48,9 +49,11 @@ pub fn run(ctx: &mut Ctx) {
         if case % 3 == 0 {
             cfg = GenCfg { node_subject: cfg.node_subject, ..GenCfg::small() };
         }
-        let m = {
-            let mut g = Gen::new(&mut rng, cfg, case);
-            g.top()
+        let m = if case >= total {
+            ctx.count("special_number_sweep");
+            special_number_model((case - total) as usize)
+        } else {
+            gen::model_for_case(&mut rng, cfg, case)
         };
         let expect = m.tree();
         let expect_bytes = m.bytes();
